@@ -42,6 +42,7 @@ type connPlan struct {
 	dialDelay    time.Duration    // the Dialer takes this long
 	inbound      []packet.Generic // application messages the broker delivers right after the CONNACK (and the late acknowledgements)
 	failGate     string           // once this gate is open every Send on this connection fails (the connection is broken, nobody has noticed yet)
+	noPongGate   string           // once this gate is open a PINGREQ is no longer answered on this connection
 }
 
 // faultFree: the peer of this attempt answers everything promptly and never drops
@@ -261,6 +262,11 @@ func (c *memConn) peer() {
 			}
 		case *packet.Disconnect:
 			return
+		case *packet.Pingreq:
+			c.s.bump("pingreq")
+			if p.noPongGate == "" || !c.s.gateOpen(p.noPongGate) {
+				c.inject(packet.NewPingresp())
+			}
 		case *packet.Pubrec:
 			// the client's answer to an inbound QoS 2 message: release it
 			pr := packet.NewPubrel()
